@@ -345,11 +345,15 @@ func (w *World) Stats() *stats.World {
 // On Windows, the shortest effective time limit should be around 0.5ms,
 // while it is in the range of microseconds on Unix systems.
 //
+// Panics when called on a locked world, i.e. while a query is open.
+//
 // This method should not be used regularly!
 // Usually, memory should stay allocated for reuse when new entities are created or
 // moved between archetypes when adding or removing components.
 // However, it might be useful in memory-constrained environments e.g. after initialization.
 func (w *World) Shrink(stopAfter ...time.Duration) bool {
+	// Shrinking re-allocates table memory, which open queries hold pointers to.
+	w.checkLocked()
 	if len(stopAfter) > 1 {
 		panic("no more than one time limit stopAfter can be given")
 	}
